@@ -89,6 +89,7 @@ Proof.
 Qed.
 
 Section Sections.
+Variable up : N -> bool.      (* the digit class of identifiers, see Expr.v *)
 Variable fmt : N -> str.
 Variable prs : str -> option N.
 Variable hex : bool.
@@ -119,7 +120,7 @@ Qed.
 
 (* ---- VAL_TABLE_ ---- *)
 Definition wf_value_table (t : value_table) : Prop :=
-  expr_ident (vt_name t) = true /\ Forall wf_vd (vt_values t).
+  expr_ident up (vt_name t) = true /\ Forall wf_vd (vt_values t).
 
 Lemma parse_value_table_ok : forall t rest, wf_value_table t ->
   toks_of (w_value_table t) ++ rest =
@@ -139,7 +140,7 @@ Ltac pstep := first
   | rewrite p_double_ok by assumption ]; cbn [bind].
 
 (* ---- identifier lists ---- *)
-Definition idents_ok (l : list str) : Prop := Forall (fun n => expr_ident n = true) l.
+Definition idents_ok (l : list str) : Prop := Forall (fun n => expr_ident up n = true) l.
 
 Lemma idents_loop_ok : forall l rest, rest_ok rest \/ (exists c r, rest = (KPunct, [c]) :: r) ->
   idents_loop (toks_of (flat_map (fun n => [sp; ident n]) l) ++ rest) = (l, rest).
@@ -177,7 +178,7 @@ Proof. intros [] r; reflexivity. Qed.
 
 (* ---- SG_ ---- *)
 Definition wf_signal (s : signal) : Prop :=
-  expr_ident (sg_name s) = true /\ match sg_mux s with Some n => u32_ok n | None => True end /\
+  expr_ident up (sg_name s) = true /\ match sg_mux s with Some n => u32_ok n | None => True end /\
   u32_ok (sg_start s) /\ u32_ok (sg_size s) /\
   fin (sg_factor s) = true /\ fin (sg_offset s) = true /\ fin (sg_min s) = true /\ fin (sg_max s) = true /\
   expr_string (sg_unit s) = true /\ sg_receivers s <> [] /\ idents_ok (sg_receivers s).
@@ -231,7 +232,7 @@ Proof.
 Qed.
 
 Definition wf_message (m : message) : Prop :=
-  u32_ok (ms_id m) /\ expr_ident (ms_name m) = true /\ u32_ok (ms_size m) /\ expr_ident (ms_tx m) = true /\
+  u32_ok (ms_id m) /\ expr_ident up (ms_name m) = true /\ u32_ok (ms_size m) /\ expr_ident up (ms_tx m) = true /\
   Forall wf_signal (ms_signals m).
 
 Lemma parse_message_ok : forall m rest, wf_message m -> rest_ok rest ->
@@ -260,7 +261,7 @@ Qed.
 
 (* ---- EV_ ---- *)
 Definition wf_env_var (e : env_var) : Prop :=
-  expr_ident (ev_name e) = true /\ fin (ev_min e) = true /\ fin (ev_max e) = true /\ expr_string (ev_unit e) = true /\
+  expr_ident up (ev_name e) = true /\ fin (ev_min e) = true /\ fin (ev_max e) = true /\ expr_string (ev_unit e) = true /\
   fin (ev_init e) = true /\ u32_ok (ev_id e) /\ ev_access e < 8 /\ ev_nodes e <> [] /\ idents_ok (ev_nodes e).
 
 Lemma p_access_ok : forall a, a < 8 ->
@@ -286,7 +287,7 @@ Proof.
 Qed.
 
 (* ---- ENVVAR_DATA_ ---- *)
-Definition wf_env_var_data (d : env_var_data) : Prop := expr_ident (ed_name d) = true /\ u32_ok (ed_size d).
+Definition wf_env_var_data (d : env_var_data) : Prop := expr_ident up (ed_name d) = true /\ u32_ok (ed_size d).
 
 Lemma parse_env_var_data_ok : forall d rest, wf_env_var_data d ->
   exists T, toks_of (w_env_var_data d) ++ rest = (KKeyword, kw_ENVVAR_DATA) :: T /\ parse_env_var_data T = POk d rest.
@@ -298,9 +299,9 @@ Qed.
 
 (* ---- SGTYPE_ ---- *)
 Definition wf_signal_type (s : signal_type) : Prop :=
-  expr_ident (st_name s) = true /\ u32_ok (st_size s) /\ fin (st_factor s) = true /\ fin (st_offset s) = true /\
+  expr_ident up (st_name s) = true /\ u32_ok (st_size s) /\ fin (st_factor s) = true /\ fin (st_offset s) = true /\
   fin (st_min s) = true /\ fin (st_max s) = true /\ expr_string (st_unit s) = true /\ fin (st_default s) = true /\
-  expr_ident (st_table s) = true.
+  expr_ident up (st_table s) = true.
 
 Lemma parse_signal_type_ok : forall s rest, wf_signal_type s ->
   exists T, toks_of (w_signal_type fmt s) ++ rest = (KKeyword, kw_SGTYPE) :: T /\ parse_signal_type prs T = POk (inl s) rest.
@@ -314,7 +315,7 @@ Proof.
 Qed.
 
 Definition wf_signal_type_ref (r : signal_type_ref) : Prop :=
-  u32_ok (sr_id r) /\ expr_ident (sr_signal r) = true /\ expr_ident (sr_type r) = true.
+  u32_ok (sr_id r) /\ expr_ident up (sr_signal r) = true /\ expr_ident up (sr_type r) = true.
 
 Lemma parse_signal_type_ref_ok : forall r rest, wf_signal_type_ref r ->
   exists T, toks_of (w_signal_type_ref r) ++ rest = (KKeyword, kw_SGTYPE) :: T /\ parse_signal_type prs T = POk (inr r) rest.
@@ -328,10 +329,10 @@ Qed.
 Definition wf_ref (r : obj_ref) : Prop :=
   match r with
   | ORGeneral => True
-  | ORNode n => expr_ident n = true
+  | ORNode n => expr_ident up n = true
   | ORMessage id => u32_ok id
-  | ORSignal id n => u32_ok id /\ expr_ident n = true
-  | OREnvVar n => expr_ident n = true
+  | ORSignal id n => u32_ok id /\ expr_ident up n = true
+  | OREnvVar n => expr_ident up n = true
   end.
 
 (* ---- CM_ ---- *)
@@ -506,7 +507,7 @@ Qed.
 
 (* ---- VAL_ ---- *)
 Definition wf_value_encoding (v : value_encoding) : Prop :=
-  match ve_ref v with ERSignal id n => u32_ok id /\ expr_ident n = true | EREnvVar n => expr_ident n = true end /\
+  match ve_ref v with ERSignal id n => u32_ok id /\ expr_ident up n = true | EREnvVar n => expr_ident up n = true end /\
   Forall wf_vd (ve_values v).
 
 Lemma parse_value_encoding_ok : forall v rest, wf_value_encoding v ->
@@ -521,7 +522,7 @@ Qed.
 
 (* ---- SIG_GROUP_ ---- *)
 Definition wf_signal_group (g : signal_group) : Prop :=
-  u32_ok (sgp_id g) /\ expr_ident (sgp_name g) = true /\ u32_ok (sgp_rep g) /\ idents_ok (sgp_signals g).
+  u32_ok (sgp_id g) /\ expr_ident up (sgp_name g) = true /\ u32_ok (sgp_rep g) /\ idents_ok (sgp_signals g).
 
 Lemma parse_signal_group_ok : forall g rest, wf_signal_group g ->
   exists T, toks_of (w_signal_group g) ++ rest = (KKeyword, kw_SIG_GROUP) :: T /\ parse_signal_group T = POk g rest.
@@ -532,7 +533,7 @@ Proof.
 Qed.
 
 (* ---- SIG_VALTYPE_ ---- *)
-Definition wf_sig_ext_value_type (v : sig_ext_value_type) : Prop := u32_ok (sv_id v) /\ expr_ident (sv_signal v) = true.
+Definition wf_sig_ext_value_type (v : sig_ext_value_type) : Prop := u32_ok (sv_id v) /\ expr_ident up (sv_signal v) = true.
 
 Lemma parse_sig_ext_value_type_ok : forall v rest, wf_sig_ext_value_type v ->
   exists T, toks_of (w_sig_ext_value_type v) ++ rest = (KKeyword, kw_SIG_VALTYPE) :: T /\ parse_sig_ext_value_type T = POk v rest.
@@ -545,7 +546,7 @@ Qed.
 (* ---- SG_MUL_VAL_ ---- *)
 Definition wf_range (r : N * N) : Prop := u32_ok (fst r) /\ u32_ok (snd r).
 Definition wf_ext_mux (x : ext_mux) : Prop :=
-  u32_ok (xm_id x) /\ expr_ident (xm_muxed x) = true /\ expr_ident (xm_muxor x) = true /\
+  u32_ok (xm_id x) /\ expr_ident up (xm_muxed x) = true /\ expr_ident up (xm_muxor x) = true /\
   xm_ranges x <> [] /\ Forall wf_range (xm_ranges x).
 
 Lemma p_range_ok : forall x r, wf_range x -> p_range (tok1 (w_range x) ++ r) = POk x r.
